@@ -308,6 +308,10 @@ class Model:
                 if k == 'wgdone': upd[('cell', ev['cell'])] = cell - 1
                 elif k == 'wgadd': upd[('cell', ev['cell'])] = cell + ev.get('n', 0)
                 else: guard.append(cell == 0)
+            elif k == 'trylock':
+                cell = s['cell'][ev['cell']]; ones = BitVecVal(-1, cell.size())
+                if ev['outcome'] == 1: guard.append(cell == 0); upd[('cell', ev['cell'])] = ones
+                else: guard.append(cell != 0)
             elif k in ('lock', 'unlock', 'rlock', 'runlock'):
                 cell = s['cell'][ev['cell']]; ones = BitVecVal(-1, cell.size())
                 if k == 'lock': guard.append(cell == 0); upd[('cell', ev['cell'])] = ones
@@ -512,7 +516,7 @@ class Model:
             if c['kind'] != 'mutex': continue
             held_any = []
             for pi, p in enumerate(self.procs):
-                if not any(t['ev']['kind'] in ('lock', 'unlock') and t['ev']['cell'] == n for t in p['trans']): continue
+                if not any(t['ev']['kind'] in ('lock', 'unlock', 'trylock') and t['ev']['cell'] == n for t in p['trans']): continue
                 val = {l: None for l in range(p['nlocs'])}
                 val[p['init']] = frozenset([False])
                 ch = True
@@ -522,6 +526,7 @@ class Model:
                         if val[t['from']] is None: continue
                         vs = set(val[t['from']])
                         if t['ev']['kind'] == 'lock' and t['ev']['cell'] == n: vs = {True}
+                        if t['ev']['kind'] == 'trylock' and t['ev']['cell'] == n and t['ev']['outcome'] == 1: vs = {True}
                         if t['ev']['kind'] == 'unlock' and t['ev']['cell'] == n: vs = {False}
                         nv = frozenset(vs) if val[t['to']] is None else frozenset(vs | set(val[t['to']]))
                         if nv != val[t['to']]:
